@@ -6,6 +6,14 @@ props = [json.loads(l) for l in open(os.path.join(ROOT, 'properties.jsonl'))]
 NOTE_COMMON = ("Trusted: clang 14 front end; engine R (own symbolic executor over clang's AST of the current tree); exact reals for "
                "double/float; listed library models; z3 5.1/4.8.12, cvc5 1.0.3. Everything else is listed per run in the evidence file.")
 CLAIMS = {
+ 'C04': dict(
+   text=("Contracts on the real functions of the cell cycle, all inputs symbolic: target-volume law with floor, pressure law with cap, division trigger "
+         "(epithelial vs base class), removal predicate and its side effect, 3-sigma clamp of the sampled growth rate / division volume, order of "
+         "operations in apply_internal_forces (callees by contract), structure of run_iteration (removal over the whole list exactly once per "
+         "iteration, after integration, nothing re-inserted; every other callee modelled as 'may do anything'), and the initial-pressure loop body "
+         "of the solver constructor. No bound on inputs or histories; loops by contract / arbitrary-iteration slice."),
+   design='6 C04', technique='contract-based deductive verification: own VC generator over the clang AST (heap model, callee contracts, loop-body contracts) + SMT',
+   note=NOTE_COMMON + " log/exp uninterpreted; std::remove_if/erase by the standard's specification; two callee frames assumed here and proved under C12."),
  'C05': dict(
    text=("Contract on the real contact_model_abstract::compute_node_triangle_distance (AST of the current tree, symbolic p,a,b,c): on each of "
          "its 7 return paths the barycentric coordinates sum to 1 and are >= 0, the returned d2 equals |p-q|^2, q satisfies the first-order "
